@@ -294,6 +294,41 @@ pub fn real_result(op: &str) -> Option<String> {
             l.id.script = None;
             format!("{} {} {}", a, l, l.matches(&"und-TW".parse::<Locale>().unwrap(), false, false))
         }
+        ("shared", what, None) => {
+            use std::sync::Arc;
+            let a: Arc<Locale> = Arc::new("en-Latn-US-valencia-u-abc-ca-buddhist-t-de-h0-hybrid-x-a".parse().unwrap());
+            let b: Arc<Locale> = Arc::new("EN_latn_us_VALENCIA_t_de_h0_hybrid_u_abc_ca_buddhist_x_a".parse().unwrap());
+            let c: Arc<Locale> = Arc::new("ar-EG-u-nu-arab".parse().unwrap());
+            let (x, y, z) = (a.clone(), b.clone(), c.clone());
+            match what {
+                "to_string" => format!("{} {}", x, x.id),
+                "getters" => format!("{:?} {:?} {:?} {:?} {:?} {:?} {}", x.extensions.unicode.attributes().collect::<Vec<_>>(), x.extensions.unicode.keyword("ca").map(|i| i.collect::<Vec<_>>()).ok(),
+                    x.extensions.transform.tlang().map(|t| t.to_string()), x.extensions.transform.tfield("h0").map(|i| i.collect::<Vec<_>>()).ok(),
+                    x.extensions.private.tags().collect::<Vec<_>>(), x.id.variants().map(|v| v.as_str()).collect::<Vec<_>>(), x.extensions.is_empty()),
+                "compare" => {
+                    use std::hash::{Hash, Hasher};
+                    let h = |l: &Locale| { let mut s = std::collections::hash_map::DefaultHasher::new(); l.hash(&mut s); s.finish() };
+                    format!("{} {} {:?} {:?} {} {}", *x == *y, *x == *z, x.cmp(&y), x.cmp(&z), h(&x) == h(&y), x.id == "en-Latn-US-valencia")
+                }
+                "matches" => format!("{} {} {} {}", x.matches(&*y, false, false), x.id.matches(&y.id, true, true), z.matches(&*z, false, false), z.id.matches(&*x, true, false)),
+                "direction" => format!("{:?} {:?}", x.id.character_direction(), z.id.character_direction()),
+                "clone_mutate" => {
+                    let mut m: Locale = (*x).clone();
+                    m.id.clear_variants();
+                    let _ = m.extensions.unicode.set_attribute("zzz");
+                    let _ = m.extensions.private.add_tag("b");
+                    m.id.region = None;
+                    format!("{} | {}", m, x)
+                }
+                "to_string2" => format!("{} {:?}", z, z.id.language.as_str()),
+                "into_parts" => {
+                    let (l, s, r, vs, e) = (*x).clone().into_parts();
+                    let back = Locale::from_parts(l, s, r, &vs, Some(e.parse().unwrap()));
+                    format!("{} {}", back == *y, back)
+                }
+                _ => return None,
+            }
+        }
         _ => return None,
     })
 }
